@@ -18,7 +18,8 @@ vars == <<l, cfg, tabs, retd, pend, dead>>
 \* tabs = sequence of table states: tabs[m+1] = tables after the first m updates (each state: one row sequence per join)
 
 TKey(j, t) == [i \in 1..Len(cfg.joins[j].on) |-> KeyOf(Col(t, cfg.joins[j].on[i][2]))]
-SKey(j, r) == [i \in 1..Len(cfg.joins[j].on) |-> KeyOf(Col(r, cfg.joins[j].on[i][1]))]
+SVal(r, p) == IF Len(p) = 3 THEN ColPath(r, p[3]) ELSE Col(r, p[1])
+SKey(j, r) == [i \in 1..Len(cfg.joins[j].on) |-> KeyOf(SVal(r, cfg.joins[j].on[i]))]
 HasNullKey(k) == \E i \in 1..Len(k) : k[i] = <<"null">>
 JoinOf(name) == CHOOSE j \in 1..Len(cfg.joins) : cfg.joins[j].name = name
 UpsertIn(j, t, row) == LET hits == {i \in 1..Len(t) : TKey(j, t[i]) = TKey(j, row)} IN
